@@ -143,6 +143,11 @@ impl Send {
     pub fn is_reset(&self) -> (r: bool) ensures r == (self.state is ResetSent) { matches!(self.state, SendState::ResetSent) }
     /// clauses of Send::write proved on the real function in unit send_stream: at most `limit` bytes are taken, errors change nothing
     pub fn is_writable(&self) -> (r: bool) ensures r == (self.state is Ready) { matches!(self.state, SendState::Ready) }
+    /// Send::try_stop as proved on the real function in unit send_stream: the first STOP_SENDING is recorded, later ones change nothing
+    #[verifier::external_body] pub fn try_stop(&mut self, error_code: VarInt) -> (r: bool)
+        ensures r == old(self).stop_reason.is_none(), final(self).stop_reason == (if r { Some(error_code) } else { old(self).stop_reason }),
+            final(self).state == old(self).state, final(self).pending == old(self).pending, final(self).max_data == old(self).max_data
+    { unimplemented!() }
     /// the error table of Send::write as proved on the real function in unit send_stream
     #[verifier::external_body] pub fn write<B: BytesSource>(&mut self, source: &mut B, limit: u64) -> (res: Result<Written, WriteError>)
         ensures match res {
@@ -242,6 +247,11 @@ impl<'a> SendOcc<'a> {
         requires !old(self).removed()
         ensures final(self).key() == old(self).key(), final(self).fut() == old(self).fut(), !final(self).removed(),
             match r { Some(st) => old(self).slot() == Some(*st) && final(self).slot() == Some(*final(st)), None => old(self).slot().is_none() && final(self).slot().is_none() }
+    { unimplemented!() }
+    /// `e.get().as_ref().map(|s| s.state)`
+    #[verifier::external_body] pub fn peek_state(&self) -> (r: Option<SendState>)
+        requires !self.removed()
+        ensures r == (match self.slot() { Some(s) => Some(s.state), None => None })
     { unimplemented!() }
     /// `entry.remove_entry()` (borrowing instead of consuming, see RecvOcc::remove)
     #[verifier::external_body] pub fn remove_entry(&mut self)
@@ -636,6 +646,7 @@ impl StreamsState {
             final(self).max_remote == old(self).max_remote, final(self).next == old(self).next, final(self).max == old(self).max,
             final(self).allocated_remote_count == old(self).allocated_remote_count, final(self).max_concurrent_remote_count == old(self).max_concurrent_remote_count,
             final(self).send_streams == old(self).send_streams, final(self).next_reported_remote == old(self).next_reported_remote,
+            !notify_readable ==> final(self).events@ == old(self).events@,
             // a frame naming a remote stream implicitly opens it and every lower-numbered stream of its kind -- and nothing else
             ({ let d = di(stream.dir());
                &&& final(self).next_remote[d] == (if stream.initiator() != old(self).side && stream.index() >= old(self).next_remote[d] { (stream.index() + 1) as u64 } else { old(self).next_remote[d] })
@@ -1099,6 +1110,37 @@ impl StreamsState {
                 { (old(self).send_streams - 1) as usize } else { old(self).send_streams }),
 //@ end
 
+//@ extract quinn-proto/src/connection/streams/state.rs :: impl StreamsState::fn received_stop_sending
+//@ props C11
+//@ replace ws:self .send .get_mut(&id) .map(get_or_insert_send(max_send_data)) => send_entry(&mut self.send, id, max_send_data)
+//@ contract
+        ensures
+            // Stopped is reported once per stopped stream: exactly when this STOP_SENDING is the first one for an existing send half
+            ({ let first = send_abs(old(self).send, id) matches Some(s0) && s0.stop_reason.is_none();
+               &&& final(self).events@ == (if first { old(self).events@.push(StreamEvent::Stopped { id, error_code }) } else { old(self).events@ })
+               &&& (first ==> (send_abs(final(self).send, id) matches Some(s1) && s1.stop_reason == Some(error_code)))
+               &&& (!first ==> final(self).next_remote == old(self).next_remote) }),
+            final(self).fc() == old(self).fc(), final(self).sfc() == old(self).sfc(),
+//@ end
+//@ extract quinn-proto/src/connection/streams/state.rs :: impl StreamsState::fn reset_acked
+//@ props C11
+//@ replace match self.send.entry(id) { => match send_occupied(&mut self.send, id) {
+//@ replace hash_map::Entry::Vacant(_) => {} ==>> None => {}
+//@ replace hash_map::Entry::Occupied(e) => { ==>> Some(mut e) => {
+//@ replace e.get().as_ref().map(|s| s.state) => e.peek_state()
+//@ at-start
+        broadcast use axiom_send_occ_resolved;
+//@ contract
+        requires old(self).send_streams >= 1,
+            id.initiator() != old(self).side ==> old(self).allocated_remote_count[di(id.dir())] >= 1,
+            old(self).max_remote[di(id.dir())] + old(self).max_concurrent_remote_count[di(id.dir())] <= 0x1000_0000_0000_0000,
+        ensures
+            // the acknowledgement of a RESET_STREAM frees the send half exactly when the stream is in ResetSent, and nothing else
+            ({ let hit = old(self).send.has(id) && (send_slot(old(self).send, id) matches Some(st) && st.state is ResetSent);
+               &&& final(self).send_streams == (if hit { (old(self).send_streams - 1) as usize } else { old(self).send_streams })
+               &&& (!hit ==> final(self).max_remote == old(self).max_remote && final(self).allocated_remote_count == old(self).allocated_remote_count) }),
+            final(self).fc() == old(self).fc(), final(self).sfc() == old(self).sfc(),
+//@ end
 //@ extract quinn-proto/src/connection/streams/state.rs :: impl StreamsState::fn write_limit
 //@ props C05
 //@ ret r
